@@ -484,9 +484,10 @@ func (s *State) Expect(m sdk.Msg) *Expect {
 		e.SemDiff = fmt.Sprintf("pair[%d,%x]", k.Domain, tailb([]byte(k.Token)))
 	case *ct.MsgSetMaxBurnAmountPerMessage:
 		ok := admin("SetMaxBurnAmountPerMessage", s.TC, msg.From, "token-controller", "C19")
-		if ok && (msg.Amount.IsNil() || msg.Amount.IsNegative()) {
-			e.dc("limit-absent-or-negative")
+		if ok && !msg.Amount.IsNil() && msg.Amount.IsNegative() {
+			e.dc("limit-negative")
 		}
+		// an amount that is absent on the wire is the scalar's default, 0: the request stores limit 0 like an explicit 0
 		d := strings.ToLower(msg.LocalToken)
 		var v *big.Int
 		if !msg.Amount.IsNil() {
